@@ -304,6 +304,22 @@ func (c *scen) twoSignerScenarios() {
 	sc.KnownDeviation = "reference-time-first-signer"
 	c.add("forgery", "two-signer-infos-first-without-signing-time-second-certificate-not-valid-at-its-signing-time",
 		"as before but SignerInfo 1 carries no signingTime", build(nil, &t2, false), nil, nil)
+	{
+		// second DS valid 2025..2030 only: not valid at t1, valid at its own signing time t2
+		ds3, err := c.csca.IssueDS(CertSpec{Rand: c.sub(21), Subject: DN("NL", "State of the Netherlands", "DS 3"), KeySlot: slotDS2,
+			NotBefore: ds2End, NotAfter: time.Date(2030, 1, 1, 0, 0, 0, 0, time.UTC)})
+		if err != nil {
+			c.fail(err)
+			return
+		}
+		s := c.base()
+		s.SD.Signers = append(s.SD.Signers, SignerSpec{ID: &ds3.Entity, SigningTime: &t2})
+		sc := c.add("genuine", "two-signer-infos-second-certificate-valid-only-at-its-own-signing-time",
+			"SignerInfo 1 (DS 1) signed 2024-06-01; SignerInfo 2 by a DS valid 2025..2030 signed 2026-01-01: each certificate is valid at its own signing time [exercises known deviation reference-time-first-signer]", c.sod(s), nil, nil)
+		if sc.KnownDeviation == "" {
+			sc.KnownDeviation = "reference-time-first-signer"
+		}
+	}
 	c.add("forgery", "two-signer-infos-second-signature-corrupted", "second SignerInfo's signature has one bit flipped", build(&t1, &t1b, true), nil, nil)
 }
 
